@@ -9,10 +9,10 @@ CHECKS = {
          "Trusts refts/crc.go (anchored on 0x0376E6E7 and a known PAT) and that the hooks are thin wrappers; the e2e stage checks the real parse/write paths use the same function.", "DESIGN.md §4 C10"),
  "C15": ("exploration", "runtime differential monitor: hooked dvb.go conversions vs integer civil-calendar oracle, exhaustive enumeration of days, times of day and BCD patterns",
          "All 50457 MJD values and all 86400 times of day are decoded and encoded (jointly on a grid in quick, all days x all seconds encoded in thorough); all 10^4/10^6 digit patterns and all 2^16/2^24 raw patterns of the durations.",
-         "Trusts refts/dvb.go (anchored on the Annex C example and cross-checked against time.AddDate); UTC times only.", "DESIGN.md §4 C15"),
+         "Trusts refts/dvb.go (anchored on the Annex C example and cross-checked against time.AddDate); two thirds of the encodings start from the same instant in one of 14 non-UTC locations.", "DESIGN.md §4 C15"),
  "C11": ("exploration", "runtime differential monitor: NextPacket / Muxer.WritePacket on reference-encoded packet models vs independent ISO 13818-1 packet codec; re-emission byte comparison",
          "Header cross product (all 8192 PIDs, all flag/scrambling/counter combinations), every subset of adaptation parts and extension parts, every adaptation_field_length 0..183, single-bit clock values; parse, write and re-emit compared on every case.",
-         "Trusts refts/packet.go (self-checked against hand-assembled bytes). IsOneByteStuffing is ignored on parse comparison (not part of the TS format). No reserved bytes inside the adaptation extension.", "DESIGN.md §4 C11"),
+         "Trusts refts/packet.go (self-checked against hand-assembled bytes). IsOneByteStuffing is ignored on parse comparison (not part of the TS format). Reserved bytes closing the adaptation extension are driven by raising the extension length of packets with stuffing behind it (1..3 bytes) and through the generators.", "DESIGN.md §4 C11"),
  "C12": ("exploration", "runtime differential monitor: NextData / parsePESData hook on reference-encoded PES models and WriteData output after independent reassembly vs independent PES codec; Duration vs big.Int",
          "All 256 optional-header flag bytes x 16 extension subsets, single-bit timestamp values, all trick mode bytes, CRC values, header stuffing, four PES_packet_length modes, all stream ids; writer-supported headers compared byte for byte.",
          "Trusts refts/pes.go; pack_header_field excluded; one known finding (six Table 2-21 stream ids) is listed in KNOWN_FINDINGS.txt.", "DESIGN.md §4 C12"),
@@ -29,10 +29,10 @@ CHECKS = {
          "Every single-packet duplication (immediate and delayed) and deletion of every generated stream, random multi-fault plans with bursts up to 15, and all 6^7 fault words on a 2-PID micro stream.",
          "FirstPacket metadata is not compared (header flags are what the faults alter); plans violating the property's precondition are skipped and counted.", "DESIGN.md §4 C06"),
  "C07": ("exploration", "metamorphic runtime monitor: per-PID output under order-preserving merges, inserted null/AF-only/TEI packets and single-PID corruption vs a canonical merge",
-         "K random and extreme merges per model (clean and damaged PIDs), all 70 / 1680 merges of micro streams, insertions at every position, five corruption kinds confined to one PID.",
+         "K random and extreme merges per model (clean and damaged PIDs), all 70 / 1680 merges of micro streams, insertions at every position, five corruption kinds confined to one PID plus well-formed garbage (a table_id 0 section on another PID naming the model's PIDs), captures joined in mid-stream.",
          "PAT completes before PMT packets in every merge; errors are not units.", "DESIGN.md §4 C07"),
  "C08": ("exploration", "metamorphic runtime monitor: demuxer output under read schedules, reader kinds, auto-detection and 188+k framing vs the baseline configuration; reader tap records the reads actually served",
-         "Fixed chunk sizes (all 1..400 in thorough), random chunks, a cut at every offset of the first 400 bytes, seekable/bufio/plain x explicit/auto, 188+k for k up to 64.",
+         "Fixed chunk sizes (all 1..400 in thorough), random chunks, a cut at every offset of the first 400 bytes, seekable/bufio (buffers 16 bytes and up)/plain x explicit/auto, 188+k for k up to 64, streams shorter than the detection window, readers delivering data with io.EOF or returning (0, nil), handover of a read-only reader after a table.",
          "Inputs respect the auto-detector's documented assumption; plain+auto is judged as suffix + chunk independence.", "DESIGN.md §4 C08"),
  "C19": ("exploration", "callback taps on PacketSkipper / PacketsParser + differential against the harness-filtered stream and the model's units",
          "Ten predicate families x both APIs on clean and gapped streams; observer, replacer and failing parsers.",
@@ -41,16 +41,16 @@ CHECKS = {
          "Every k in 0..calls (strided for long streams in quick) x three APIs x explicit/auto x repeated rewinds x chunked reads, classified by state at rewind time.",
          "In-memory seekable reader; streams satisfy the PAT-before-PMT precondition.", "DESIGN.md §4 C20"),
  "C01": ("exploration", "round-trip runtime monitor: Muxer histories -> writer tap -> library Demuxer and independent reference reassembly, compared with the expected log kept by the harness",
-         "Random histories (explicit/auto PIDs, all stream types, ES descriptors, removals and re-adds, failing calls) with boundary payload lengths, all writer-supported PES header combinations, first-packet adaptation fields of every fit class; sweep of every payload length 1..1200 (+65500..65600 thorough) for 8 shapes.",
+         "Random histories (explicit/auto PIDs, all stream types, ES descriptors, removals and re-adds, failing calls) with boundary payload lengths, all writer-supported PES header combinations, first-packet adaptation fields of every fit class incl. requested stuffing and oversized ones; sweep of every payload length 1..1200 (+65500..65600 thorough) for 8 shapes; remultiplexing of parsed PES / adaptation fields / PMT entries; rejected calls repaired on the same object; discontinuity indicators (one known finding).",
          "Trusts refts (PES/packet/PSI codecs); StreamID 0 compared with StreamType.ToPESStreamID; an adaptation field too big to share the first packet is only required not to disturb the PES.", "DESIGN.md §4 C01"),
  "C03": ("exploration", "hostile-input runtime monitor in isolated child processes: call guard (panics), logical call bound to ErrNoMorePackets, post-EOF calls, truncated-final-packet equivalence; journal + watchdog for non-returning calls",
-         "Random, structured-then-mutated (9 mutation kinds over reference- and library-muxed streams with rich tables), truncated-at-every-offset, empty and tiny inputs, stored fuzz corpora; configuration cross product packet size x reader x read schedule x API x options.",
+         "Random, structured-then-mutated (9 mutation kinds over reference- and library-muxed streams with rich tables), truncated-at-every-offset, empty and tiny inputs, stored fuzz corpora; configuration cross product packet size x reader (bufio buffers 16..4096) x read schedule x API x options; w whole packets + a truncated one (w >= 0) must end without an error on every reader kind.",
          "Termination is a logical bound (calls ≤ len+64); a watchdog firing outside a library frame is inconclusive.", "DESIGN.md §4 C03"),
  "C04": ("exploration", "writer tap + call records + independent packet/section decoder applied after every call of random Muxer histories (valid and rejected arguments) and an exhaustive WritePacket size grid",
-         "Every call: output length multiple of 188, returned n equals bytes delivered, every packet conformant, unit starts flagged correctly, PES length consistent; rejected calls leave nothing partial.",
+         "Every call: output length multiple of 188, returned n equals bytes delivered, every packet conformant, unit starts flagged correctly, PES length consistent; rejected calls leave nothing partial; inconsistent private data lengths, oversized extension reserved bytes, streams asked for on reserved PIDs, edge PES headers, retries on the same adaptation field object.",
          "The writer accepts everything (failures are C18); WritePacket inputs are self-consistent packets or oversize ones.", "DESIGN.md §4 C04"),
  "C05": ("exploration", "online trace checker of continuity_counter per PID over the writer tap's packet log, driven by the C04 histories",
-         "PAT, PMT and every elementary PID between Add and Remove, ≥16 packets per PID (wrap), failing table emissions followed by successful ones, adaptation fields leaving no room for the PES header, removals and re-adds.",
+         "PAT, PMT and every elementary PID between Add and Remove, ≥16 packets per PID (wrap), failing table emissions followed by successful ones, adaptation fields leaving no room for the PES header (also as first packet of a PID), removals and re-adds, streams asked for on reserved PIDs; packets without payload must repeat the counter.",
          "Packets without payload neither advance nor consume the counter.", "DESIGN.md §4 C05"),
  "C09": ("fault_enumeration", "corruption injection on reference-encoded sections (every single-bit flip per unit, substitutions, bursts, length rewrites, truncation) with the reference decoder's accept/reject as oracle; Muxer/writePSIData sections judged by the reference CRC and length walk",
          "All bit flips of 216 (quick) / 3000 (thorough) units across the six table types, 20k/500k other corruptions; every PAT/PMT the Muxer emits for ES descriptors of every supported tag (Length right/0/wrong).",
